@@ -47,6 +47,8 @@ func (version) UnmarshalJSON(data []byte) error {
 type ID struct {
 	name   string
 	number int32
+	// isName is set for string ids, so that the empty string "" is a string id and not the number 0.
+	isName bool
 }
 
 // compile time check whether the ID implements a fmt.Formatter, json.Marshaler and json.Unmarshaler interfaces.
@@ -60,7 +62,7 @@ var (
 func NewNumberID(v int32) ID { return ID{number: v} }
 
 // NewStringID returns a new string request ID.
-func NewStringID(v string) ID { return ID{name: v} }
+func NewStringID(v string) ID { return ID{name: v, isName: true} }
 
 // Format writes the ID to the formatter.
 //
@@ -73,7 +75,7 @@ func (id ID) Format(f fmt.State, r rune) {
 	}
 
 	switch {
-	case id.name != "":
+	case id.name != "" || id.isName:
 		fmt.Fprintf(f, strF, id.name)
 	default:
 		fmt.Fprintf(f, numF, id.number)
@@ -82,7 +84,7 @@ func (id ID) Format(f fmt.State, r rune) {
 
 // MarshalJSON implements json.Marshaler.
 func (id *ID) MarshalJSON() ([]byte, error) {
-	if id.name != "" {
+	if id.name != "" || id.isName {
 		return json.Marshal(id.name)
 	}
 	return json.Marshal(id.number)
@@ -94,7 +96,11 @@ func (id *ID) UnmarshalJSON(data []byte) error {
 	if err := json.Unmarshal(data, &id.number); err == nil {
 		return nil
 	}
-	return json.Unmarshal(data, &id.name)
+	if err := json.Unmarshal(data, &id.name); err != nil {
+		return err
+	}
+	id.isName = true
+	return nil
 }
 
 // wireRequest is sent to a server to represent a Call or Notify operaton.
